@@ -17,6 +17,7 @@ def dispatch (prop : String) (ins outs : List String) : Verdict :=
   | "C20" => C20.run ins outs
   | "C02" => C02.run ins outs
   | "C08" => C08.run ins outs
+  | "C19" => C19.run ins outs
   | _ => .bad ("unknown property " ++ prop)
 
 partial def loop (h : IO.FS.Stream) (out : IO.FS.Stream) (n : Nat) : IO Unit := do
